@@ -182,7 +182,7 @@ def build(ctx, hooks_cls=RobotHooks, use_teleop_in_autonomous=None, shapes=None)
             it.call(BoundMethod(init, robot), [], {})
             # lists the constructor leaves empty are filled during start-up with user objects
             for k, v in list(robot.fields.items()):
-                if isinstance(v, ListV) and not v.items:
+                if isinstance(v, ListV) and not v.items and (not shapes or "$filled" not in shapes or k in shapes["$filled"]):
                     elem = Ext(f"robot.{k}[]", "user", role="elem")
                     if shapes and k in shapes:
                         elem = shapes[k](elem)  # record type found at the start-up code's append() to this list
